@@ -28,7 +28,9 @@ ASSUMPTIONS = ["DUMP -all writes every stored reactant with >=14 significant dig
                "excluded by construction (counted in classes): KNOBS -iterations > 100 for cells with SOLID_SOLUTIONS + fixed-volume "
                "GAS_PHASE (known finding: mass lost/created at the switch to numerical derivatives), never-equilibrated -donnan "
                "surfaces (known finding: diffuse-layer water created at first contact; they are defined with -equilibrate instead), two SOLID_SOLUTIONS blocks of one history "
-               "sharing a solid-solution name (known finding: the second is solved with the phases of the first), CVODE for rates that overshoot "
+               "sharing a solid-solution name (known finding: the second is solved with the phases of the first), steps with a solid "
+               "solution that converge only in the engine's retry 'Adding inequality to make concentrations greater than zero' "
+               "(known finding: mass leaks; recognised by that warning text after the run), CVODE for rates that overshoot "
                "the reactant, kinetic uptake of substances not abundantly present in every solution (engine does not return)"]
 TECHNIQUE = "property-based testing (Hypothesis) with an independent inventory oracle over DUMP text"
 LEVEL_TEXT = ("Exploration: thousands of generated cell histories per run; for every step every element (incl. H, O) and the net "
@@ -48,6 +50,7 @@ RTOL = 1e-6
 # still below 1e-6 of the smallest amount the generator can produce (1e-9 mol/kgw x 0.1 kg x mixing fraction 0.05).
 FLOOR = 1e-12
 MOVED = 1e-9
+NEG_CONC_RETRY = "Adding inequality to make concentrations greater than zero"
 
 
 def prepare(tier):
@@ -186,6 +189,16 @@ def run_case(case, ctx, punch=None, on_step=None):
                 if done == 0:
                     raise Discard("run_error")
                 ctx.event("history_cut_by_run_error")
+                break
+            # Known finding (C02, replays/C02/known/ss-delta-leaks-into-totals-when-not-in-model.json): when a step with a
+            # solid solution only converges in the engine's 12th retry ("Adding inequality to make concentrations greater
+            # than zero"), reset() applies the delta of a solid-solution component that is not in the model to the
+            # dissolved totals but not to the component: mass disappears.  Whether that retry is reached cannot be told
+            # from the input, so these steps are excluded by the engine's own warning text (counted), not by the oracle.
+            if "ss" in info["kinds"] and NEG_CONC_RETRY in I.warnings() and not case.get("keep_negative_concentration_retry"):
+                if done == 0:
+                    raise Discard("excluded_trigger:ss_step_converged_only_with_negative_concentration_inequality")
+                ctx.event("excluded_trigger:ss_step_converged_only_with_negative_concentration_inequality")
                 break
             D1 = R.parse(I.dump())
             on_step(k, info, D0, D1, I)
